@@ -394,7 +394,15 @@ class A:
         dt = real_np.dtype(dt)
         if dt.kind in "mM" and self.kind in "mM" and dt != self.dtype:
             if real_np.datetime_data(dt) != real_np.datetime_data(self.dtype):
-                raise Unsupported("temporal unit conversion")
+                if dt.kind != self.kind:
+                    raise Unsupported("datetime <-> timedelta cast")
+                scale = {"s": 10**9, "ms": 10**6, "us": 10**3, "ns": 1}
+                (u1, n1), (u2, n2) = real_np.datetime_data(self.dtype), real_np.datetime_data(dt)
+                if u1 not in scale or u2 not in scale or n1 != 1 or n2 != 1 or scale[u1] < scale[u2]:
+                    raise Unsupported(f"temporal unit conversion {self.dtype} -> {dt}")
+                f = scale[u1] // scale[u2]
+                # to a finer unit: multiply, NaT stays NaT (overflow outside the claim)
+                return A([ite(c == MIN_INT, MIN_INT, c * f) for c in self.cells], dt, self.shape)
         rt = current()
         return A([coerce(c, dt, True, rt) for c in self.cells], dt, self.shape)
 
